@@ -82,12 +82,39 @@ def main(argv):
     if not argv or argv[0] != "--all":
         names = argv
     bad = 0
+    resfile = os.path.join(HERE, "tools", "sensitivity_results.json")
+    try:
+        results = json.load(open(resfile))
+    except Exception:
+        results = {}
+    head = subprocess.run(["git", "-C", "/repo", "rev-parse", "--short", "HEAD"], capture_output=True, text=True).stdout.strip()
     for n in names:
-        for name, pid, status, wall, info in run(load(n), tier, props):
+        m = load(n)
+        for name, pid, status, wall, info in run(m, tier, props):
             print("%-40s %-4s %-14s %6.1fs  %s" % (name, pid, status, wall, info))
             sys.stdout.flush()
             bad += status != "caught"
+            results["%s|%s|%s" % (name, pid, tier)] = {"mutant": name, "property": pid, "tier": tier, "status": status, "wall_s": round(wall, 1),
+                                                       "caught_by": info if status == "caught" else "", "why": m.get("why", ""), "repo_head": head,
+                                                       "kind": "seeded (sub-agent)" if name.startswith("seeded_") else "hand-written"}
+            json.dump(results, open(resfile, "w"), indent=1, sort_keys=True)
+    write_report(results)
     return 1 if bad else 0
+
+
+def write_report(results):
+    rows = sorted(results.values(), key=lambda r: (r["property"], r["mutant"], r["tier"]))
+    with open(os.path.join(HERE, "tools", "SENSITIVITY.md"), "w") as fh:
+        fh.write("# Sensitivity of the checks\n\nEach row: one realistic edit applied to a scratch copy of `opendsm/` (never to /repo), the property's check run "
+                 "against it (`VERIF_REPO`), expected exit 1. `seeded_*` rows are changes written by independent sub-agents (see `/verif/seeded/`); the "
+                 "others are hand-written. Regenerate with `tools/mutants.py --all`.\n\n")
+        fh.write("| property | change | kind | tier | result | caught by (first keys) | what the change does |\n|---|---|---|---|---|---|---|\n")
+        for r in rows:
+            fh.write("| %s | %s | %s | %s | %s | %s | %s |\n" % (r["property"], r["mutant"], r["kind"], r["tier"], r["status"],
+                                                              r["caught_by"].replace("|", "/")[:160], r["why"].replace("|", "/")[:140]))
+        n = len(rows)
+        c = sum(r["status"] == "caught" for r in rows)
+        fh.write("\n%d of %d runs caught.\n" % (c, n))
 
 
 if __name__ == "__main__":
